@@ -1,4 +1,10 @@
-// C17 implementation harness (part 1: RangeModule).  Same line format as ocaml/C17_run.ml.
+// C17 implementation harness.  Same line format as ocaml/C17_run.ml.
+//   RM ...  drives photon::fs::RangeModule (fs/cache/full_file_cache/range_module.h)
+//   RD ...  drives the REAL ICacheStore::preadv2 / do_refill_range / try_preadv2 (fs/cache/store.cpp)
+//           on a REAL FileCacheStore (fs/cache/full_file_cache/cache_store.cpp: try_preadv2 under the
+//           rwlock, do_preadv2, do_pwritev2, queryRefillRange on the in-memory RangeModule path, evict)
+//           whose media IFile is an in-memory file and whose source IFile is scripted; the pool is a
+//           FileCachePool that is constructed but never Init()ed (no media directory, no timer).
 #include <cstdio>
 #include <cstdlib>
 #include <cstring>
@@ -10,25 +16,70 @@
 #include <iostream>
 #include <limits>
 #include <map>
+#include <set>
+#include <list>
+#include <array>
+#include <atomic>
+#include <memory>
+#include <unordered_map>
+#include <unordered_set>
+#include <algorithm>
+#include <numeric>
+#include <functional>
+#include <utility>
+#include <iterator>
+#include <mutex>
+#include <thread>
+#include <condition_variable>
+#include <type_traits>
+#include <tuple>
+#include <cassert>
+#include <cerrno>
+#include <fcntl.h>
+#include <unistd.h>
+#include <dirent.h>
+#include <sys/stat.h>
+#include <sys/uio.h>
+#include <sys/types.h>
+#include <sys/statvfs.h>
+#include <photon/photon.h>
+#include <photon/thread/thread.h>
+#include <photon/thread/thread11.h>
+#include <photon/thread/thread-pool.h>
+#include <photon/thread/timer.h>
+#include <photon/common/alog.h>
+#include <photon/common/io-alloc.h>
+#include <photon/common/iovector.h>
+#include <photon/common/string-keyed.h>
+#include <photon/common/string_view.h>
+#include <photon/common/callback.h>
+#include <photon/common/object.h>
+#include <photon/common/utility.h>
+#include <photon/fs/filesystem.h>
 #define private public
 #define protected public
+#include <photon/common/range-lock.h>
+#include <photon/fs/cache/pool_store.h>
+#include <photon/fs/cache/cache.h>
 #include "fs/cache/full_file_cache/range_module.h"
+#include "fs/cache/full_file_cache/cache_pool.h"
+#include "fs/cache/full_file_cache/cache_store.h"
 #undef private
 #undef protected
-using photon::fs::RangeModule;
+using namespace photon::fs;
 
-static std::vector<std::string> split(const std::string& s, char c) {
+static std::vector<std::string> split(const std::string& s, char c, bool keep_empty = false) {
     std::vector<std::string> v; std::string t; std::stringstream ss(s);
-    while (std::getline(ss, t, c)) if (!t.empty()) v.push_back(t);
+    while (std::getline(ss, t, c)) if (keep_empty || !t.empty()) v.push_back(t);
     return v;
 }
-static std::string show_map(RangeModule& rm) {
-    std::string s = "S["; bool first = true;
-    for (auto& kv : rm.intervals) {
-        if (!first) s += ";"; first = false;
-        s += std::to_string((long long)kv.first) + "-" + std::to_string((long long)kv.second);
-    }
-    return s + "]";
+static std::string ll(long long x) { return std::to_string(x); }
+
+// ------------------------------------------------------------------------ RM ----------
+static std::string show_ivs(std::map<off_t, off_t>& m) {
+    std::string s; bool first = true;
+    for (auto& kv : m) { if (!first) s += ";"; first = false; s += ll(kv.first) + "-" + ll(kv.second); }
+    return s;
 }
 static void run_rm(const std::string& ops, const std::string& qs) {
     RangeModule rm; std::string out;
@@ -39,23 +90,218 @@ static void run_rm(const std::string& ops, const std::string& qs) {
         else if (f[0] == "f") rm.removeFrom(atoll(f[1].c_str()));
         else if (f[0] == "c") rm.clear();
         if (!out.empty()) out += " ";
-        out += show_map(rm);
+        out += "S[" + show_ivs(rm.intervals) + "]";
     }
     if (qs != "-") for (auto& q : split(qs, ',')) {
         auto f = split(q, ':');
         auto r = rm.queryRefillRange(atoll(f[0].c_str()), atoll(f[1].c_str()));
         if (!out.empty()) out += " ";
-        out += "Q(" + std::to_string((long long)r.first) + "," + std::to_string((long long)r.second) + ")";
+        out += "Q(" + ll(r.first) + "," + ll(r.second) + ")";
     }
     puts(out.c_str()); fflush(stdout);
 }
+
+// ------------------------------------------------------------------------ RD ----------
+struct Outcome { char k; long long n; };      // 'k' ok, 's' short n, 'f' fail
+struct Ctx {
+    std::vector<uint8_t> src;
+    std::vector<Outcome> sor, wor; size_t sor_i = 0, wor_i = 0;
+    std::vector<std::string> log;
+    Outcome next_s() { return sor_i < sor.size() ? sor[sor_i++] : Outcome{'k', 0}; }
+    Outcome next_w() { return wor_i < wor.size() ? wor[wor_i++] : Outcome{'k', 0}; }
+};
+static size_t iov_sum(const struct iovec* iov, int n) { size_t s = 0; for (int i = 0; i < n; i++) s += iov[i].iov_len; return s; }
+static void scatter(const struct iovec* iov, int n, const uint8_t* p, size_t len) {
+    for (int i = 0; i < n && len; i++) { size_t k = std::min(len, iov[i].iov_len); memcpy(iov[i].iov_base, p, k); p += k; len -= k; }
+}
+static void gather(const struct iovec* iov, int n, std::vector<uint8_t>& out) {
+    for (int i = 0; i < n; i++) out.insert(out.end(), (uint8_t*)iov[i].iov_base, (uint8_t*)iov[i].iov_base + iov[i].iov_len);
+}
+#define UNIMPL(...) __VA_ARGS__ override { errno = ENOSYS; return -1; }
+struct BaseFile : public IFile {
+    IFileSystem* filesystem() override { return nullptr; }
+    ssize_t pread(void* buf, size_t count, off_t offset) override { struct iovec v{buf, count}; return preadv(&v, 1, offset); }
+    ssize_t pwrite(const void* buf, size_t count, off_t offset) override { struct iovec v{(void*)buf, count}; return pwritev(&v, 1, offset); }
+    UNIMPL(off_t lseek(off_t, int)) UNIMPL(int fsync()) UNIMPL(int fdatasync()) UNIMPL(int fchmod(mode_t)) UNIMPL(int fchown(uid_t, gid_t))
+    UNIMPL(int close()) UNIMPL(ssize_t read(void*, size_t)) UNIMPL(ssize_t readv(const struct iovec*, int))
+    UNIMPL(ssize_t write(const void*, size_t)) UNIMPL(ssize_t writev(const struct iovec*, int))
+};
+// the scripted source file
+struct SrcFile : public BaseFile {
+    Ctx* c; SrcFile(Ctx* c) : c(c) {}
+    ssize_t preadv(const struct iovec* iov, int n, off_t off) override {
+        long long len = iov_sum(iov, n), size = c->src.size();
+        long long av = std::max(0LL, std::min(len, size - (long long)off));
+        auto o = c->next_s(); long long ret = o.k == 'k' ? av : o.k == 's' ? std::min(std::max(0LL, o.n), av) : -1;
+        if (ret > 0) scatter(iov, n, c->src.data() + off, ret);
+        c->log.push_back("sr" + ll(off) + "/" + ll(len) + "/" + ll(ret));
+        if (ret < 0) errno = EIO;
+        return ret;
+    }
+    ssize_t pwritev(const struct iovec*, int, off_t) override { errno = EROFS; return -1; }
+    int fstat(struct stat* st) override {
+        auto o = c->next_s();
+        if (o.k == 'f') { c->log.push_back("st-1"); errno = EIO; return -1; }
+        memset(st, 0, sizeof *st); st->st_size = c->src.size(); st->st_mode = S_IFREG | 0644;
+        c->log.push_back("st" + ll(c->src.size())); return 0;
+    }
+    UNIMPL(int ftruncate(off_t))
+};
+// the in-memory media file (plain-file semantics)
+struct MemFile : public BaseFile {
+    Ctx* c; std::vector<uint8_t> data; MemFile(Ctx* c) : c(c) {}
+    ssize_t preadv(const struct iovec* iov, int n, off_t off) override {
+        long long len = iov_sum(iov, n), size = data.size();
+        long long av = std::max(0LL, std::min(len, size - (long long)off));
+        if (av > 0) scatter(iov, n, data.data() + off, av);
+        c->log.push_back("mr" + ll(off) + "/" + ll(len) + "/" + ll(av)); return av;
+    }
+    ssize_t pwritev(const struct iovec* iov, int n, off_t off) override {
+        std::vector<uint8_t> buf; gather(iov, n, buf); long long len = buf.size();
+        auto o = c->next_w(); long long ret = o.k == 'k' ? len : o.k == 's' ? std::min(std::max(0LL, o.n), len) : -1;
+        if (ret > 0) { if (data.size() < (size_t)(off + ret)) data.resize(off + ret, 0); memcpy(data.data() + off, buf.data(), ret); }
+        c->log.push_back("mw" + ll(off) + "/" + ll(len) + "/" + ll(ret));
+        if (ret < 0) errno = EIO;
+        return ret;
+    }
+    int ftruncate(off_t len) override { data.resize(len, 0); c->log.push_back("mt" + ll(len)); return 0; }
+    int fallocate(int mode, off_t off, off_t len) override {
+        long long size = data.size(), n = std::max(0LL, std::min((long long)len, size - (long long)off));
+        if (n > 0) memset(data.data() + off, 0, n);
+        c->log.push_back("ph" + ll(off) + "/" + ll(len)); return 0;
+    }
+    int fstat(struct stat* st) override {
+        memset(st, 0, sizeof *st); st->st_size = data.size(); st->st_blocks = (data.size() + 511) / 512; st->st_mode = S_IFREG | 0644; return 0;
+    }
+};
+struct TestPool : public FileCachePool {
+    TestPool(uint64_t unit) : FileCachePool(nullptr, 1024, 1000ULL * 1000 * 1000, 0, unit) {}
+};
+static std::vector<uint8_t> unhex(const std::string& s) {
+    std::vector<uint8_t> v; if (s == "-") return v;
+    for (size_t i = 0; i + 1 < s.size(); i += 2) v.push_back((uint8_t)strtoul(s.substr(i, 2).c_str(), 0, 16));
+    return v;
+}
+static std::string hex(const uint8_t* p, size_t n) {
+    if (!n) return "-"; static const char* d = "0123456789abcdef"; std::string s;
+    for (size_t i = 0; i < n; i++) { s += d[p[i] >> 4]; s += d[p[i] & 15]; } return s;
+}
+static std::vector<Outcome> parse_outcomes(const std::string& s) {
+    std::vector<Outcome> v; if (s == "-") return v;
+    for (auto& t : split(s, ',')) v.push_back(Outcome{t[0], t.size() > 1 ? atoll(t.c_str() + 1) : 0});
+    return v;
+}
+struct Held { uint64_t o, l; bool f; };
+
+static void run_rd(std::map<std::string, std::string>& kv) {
+    Ctx c;
+    uint64_t page = strtoull(kv["page"].c_str(), 0, 10), unit = strtoull(kv["unit"].c_str(), 0, 10);
+    bool use_pool = kv["pool"] == "1", tp = kv["tp"] == "1";
+    c.src = unhex(kv["src"]); c.sor = parse_outcomes(kv["sor"]); c.wor = parse_outcomes(kv["wor"]);
+    auto pool = new TestPool(unit);
+    const_cast<uint32_t&>(pool->m_max_refilling) = (uint32_t)strtoull(kv["maxr"].c_str(), 0, 10);
+    const_cast<uint32_t&>(pool->m_refilling_threshold) = (uint32_t)strtoull(kv["thr"].c_str(), 0, 10);
+    uint32_t refilling0 = (uint32_t)strtoull(kv["refilling"].c_str(), 0, 10);
+    pool->m_refilling = refilling0;
+    if (tp) { pool->m_thread_pool = photon::new_thread_pool(2, 128 * 1024ULL); pool->m_vcpu = photon::get_vcpu(); }
+    // what FileCachePool::do_open does for a new file (cache_pool.cpp:147-158)
+    auto lruIter = pool->lru_.push_front(pool->fileIndex_.end());
+    std::unique_ptr<FileCachePool::LruEntry> entry(new FileCachePool::LruEntry{lruIter, 1, 0});
+    auto find = pool->fileIndex_.emplace("/f", std::move(entry)).first;
+    pool->lru_.front() = find;
+    auto media = new MemFile(&c);
+    auto srcf = new SrcFile(&c);
+    IOAlloc alloc;
+    auto store = new FileCacheStore(pool, media, unit, find);
+    store->set_pool(use_pool ? pool : nullptr);
+    store->set_src_file(srcf); store->set_page_size(page); store->set_allocator(&alloc);
+    store->set_actual_size(atoll(kv["actual"].c_str()));
+    store->ref_ = 1;
+    media->data = unhex(kv["media"]);
+    if (kv["filled"] != "-") for (auto& iv : split(kv["filled"], ';')) {
+        auto f = split(iv, '-'); store->filledRanges_.intervals[atoll(f[0].c_str())] = atoll(f[1].c_str());
+    }
+    find->second->truncate_done = kv["td"] == "1";
+
+    std::string out;
+    for (auto& ops : split(kv["ops"], ',')) {
+        auto f = split(ops, '/');
+        c.log.clear();
+        std::string tok;
+        if (f[0] == "R") {
+            off_t off = atoll(f[1].c_str());
+            std::vector<std::vector<uint8_t>> segs; std::vector<struct iovec> iov;
+            for (auto& s : split(f[2], '+')) segs.emplace_back((size_t)atoll(s.c_str()), (uint8_t)0xAA);
+            for (auto& s : segs) iov.push_back({s.data(), s.size()});
+            std::vector<Held> held;
+            if (f[3] != "-") for (auto& h : split(f[3], ';')) { auto g = split(h, ':'); held.push_back({strtoull(g[0].c_str(), 0, 10), strtoull(g[1].c_str(), 0, 10), g[2] == "1"}); }
+            int flags = 0;
+            if (f[4].find('c') != std::string::npos) flags |= RW_V2_CACHE_ONLY;
+            if (f[4].find('s') != std::string::npos) flags |= RW_V2_SYNC_MODE;
+            for (auto& h : held) { uint64_t o = h.o, l = h.l; store->range_lock_.try_lock_wait(o, l); }
+            bool reader_done = false;
+            photon::join_handle* jh = nullptr;
+            if (!held.empty()) {
+                auto th = photon::thread_create11([&]() {
+                    if (!reader_done) {
+                        c.log.push_back("wt");
+                        for (auto& h : held) if (h.f) {
+                            long long size = c.src.size(), av = std::max(0LL, std::min((long long)h.l, size - (long long)h.o));
+                            if (av > 0) { struct iovec v{c.src.data() + h.o, (size_t)av}; store->do_pwritev2(&v, 1, h.o, 0); }
+                        }
+                    }
+                    for (auto& h : held) store->range_lock_.unlock(h.o, h.l);
+                });
+                jh = photon::thread_enable_join(th);
+            }
+            ssize_t ret = store->preadv2(iov.data(), (int)iov.size(), off, flags);
+            reader_done = true;
+            c.log.push_back("rt" + ll(ret));
+            if (jh) photon::thread_join(jh);
+            for (int spin = 0; pool->m_refilling.load() != refilling0 && spin < 100000; spin++) photon::thread_yield();
+            for (int k = 0; k < 4; k++) photon::thread_yield();
+            std::vector<uint8_t> flat; for (auto& s : segs) flat.insert(flat.end(), s.begin(), s.end());
+            tok = ll(ret) + ":" + hex(flat.data(), flat.size()) + ":";
+        } else if (f[0] == "E") {
+            long long cnt = atoll(f[2].c_str());
+            store->evict(atoll(f[1].c_str()), cnt == -1 ? (size_t)-1 : (size_t)cnt);
+            tok = "0:-:";
+        } else if (f[0] == "T") {
+            // FileCachePool::evictOpenedFile + finalizeEvicted (cache_pool.cpp:205-229) on this open store
+            { photon::scoped_rwlock wl(store->rw_lock(), photon::WLOCK); store->evict(0); }
+            find->second->truncate_done = false;
+            tok = "0:-:";
+        } else { tok = "BADOP"; }
+        std::string evs; for (auto& e : c.log) { if (!evs.empty()) evs += ","; evs += e; }
+        tok += evs.empty() ? "-" : evs;
+        if (!out.empty()) out += " ";
+        out += tok;
+    }
+    out += " ST actual=" + ll(store->get_actual_size()) + " filled=[" + show_ivs(store->filledRanges_.intervals) + "] media="
+        + hex(media->data.data(), media->data.size()) + " td=" + (find->second->truncate_done ? "1" : "0")
+        + " refilling=" + ll(pool->m_refilling.load());
+    store->pool_ = nullptr;
+    delete store;
+    delete pool;
+    puts(out.c_str()); fflush(stdout);
+}
+
 int main(int argc, char** argv) {
+    log_output_level = ALOG_FATAL + 1;
     std::ifstream in(argv[1]); std::string line;
+    bool inited = false;
     while (std::getline(in, line)) {
         if (line.empty() || line[0] == '#') continue;
         std::istringstream ss(line); std::string kind; ss >> kind;
         if (kind == "RM") { std::string ops, qs; ss >> ops >> qs; run_rm(ops, qs); }
+        else if (kind == "RD") {
+            if (!inited) { photon::init(photon::INIT_EVENT_DEFAULT, photon::INIT_IO_NONE); inited = true; }
+            std::map<std::string, std::string> kv; std::string t;
+            while (ss >> t) { auto p = t.find('='); if (p != std::string::npos) kv[t.substr(0, p)] = t.substr(p + 1); }
+            run_rd(kv);
+        }
         else { puts("BADCASE"); fflush(stdout); }
     }
+    if (inited) photon::fini();
     return 0;
 }
